@@ -66,8 +66,8 @@ CHECKS.update({
    text='8 boundary time values (epoch, sub-second, pre-epoch, far future) x every single setter and all 6 orders of the three setters x file/directory x Mem, Phys, Alt, Overlay (entry in the upper layer, lower-only, and in upper and lower layers at once) x follow-up {nothing, read, append, overwrite, copy, setters while an append handle is open}: an accepted setter sets exactly its field and nothing else, a refused one changes nothing, append on MemoryFS preserves created, adapters report the timestamps of the serving entry.',
    note='PhysicalFS on tmpfs; metadata read immediately before/after each setter', ref='3/C19'),
  'C20': dict(engine='fault', cat='fault_enumeration', tech='for every reachable state x every call: fail each single underlying call position k = 1..n (thorough: all pairs) via a fault-injecting FileSystem wrapper',
-   text='For every state of a BFS over the fault-free transitions and every call incl. observers, walk_dir and read_to_string: one fault-free run counts the n calls made into the wrapped filesystems of the stack, then the call is re-run from the same state once per position k with exactly that call failing; the result must be Err (or an Err item), or Ok with the complete fault-free effect and answer; never a panic, never a mutating call on a lower layer.',
-   note='faults at the public FileSystem trait boundary of every filesystem of the stack; not inside returned handles; <=2 simultaneous faults', ref='3/C20'),
+   text='For every state of a BFS over the fault-free transitions and every call incl. observers, walk_dir and read_to_string: one fault-free run counts the n calls made into the wrapped filesystems of the stack (trait methods and every read/write/seek/flush on returned handles), then the call is re-run from the same state once per position k with exactly that call failing; the result must be Err (or an Err item), or Ok with the complete fault-free effect and answer; never a panic, never a mutating call on a lower layer.',
+   note='faults at the public FileSystem trait boundary of every filesystem of the stack and in every read/write/seek/flush on the handles they return; <=2 simultaneous faults', ref='3/C20'),
 })
 
 def check(i, c):
